@@ -305,6 +305,12 @@ func vfC01Run(t *testing.T, cs vfC01Case, out *vfC01Out, isKnown func(string) bo
 			if d.Pub.Time > 0 {
 				nd.lagMs = time.Now().UnixMilli() - d.Pub.Time
 			}
+			if nd.inflight && curEpoch != "" && d.SP.Epoch != curEpoch && lastAttemptP != nil && *lastAttemptP != nil {
+				// A delivery of another epoch (a held one from before a reset, or the first one after a reset) reaches the
+				// node while a subscribe is between its history read and the buffer release: buffered publications carry no
+				// epoch, so this is the window of the known finding "epoch reset inside the subscribe window".
+				(*lastAttemptP).epochReset = true
+			}
 			delMu.Lock()
 			deliveries = append(deliveries, nd)
 			delMu.Unlock()
